@@ -196,12 +196,17 @@ fn alpha_sweep(cfg: &Cfg) -> Vec<Op> {
 
 static SYS_MODES: LockStep = LockStep { property: "C04", probes: false, seed: None };
 
+fn alpha_wide(cfg: &Cfg) -> Vec<Op> {
+    super::sweep::layered(super::sweep::wide_placements(cfg), super::sweep::wide_print_funcs(cfg))
+}
+
 pub fn run(ctx: &Ctx) -> Report {
     let mut rep = Report::new();
     let p = parts!(ctx.tier, &SYS);
     run_part(ctx, &mut rep, &p);
     run_part(ctx, &mut rep, &medium_part(ctx.tier));
     run_part(ctx, &mut rep, &super::sweep::sweep_part("print-large-screen-parameter-sweep", &SYS_SWEEP, &alpha_sweep, ctx.tier));
+    run_part(ctx, &mut rep, &super::sweep::wide_part("print-realistic-screen-parameter-sweep", &SYS_SWEEP, &alpha_wide, ctx.tier));
     run_part(ctx, &mut rep, &super::sweep::mode_part(&SYS_MODES, ctx.tier));
     super::sweep::mode_number_sweep(ctx, &mut rep, &SYS_MODES);
     charset_table(ctx, &mut rep);
@@ -225,6 +230,9 @@ pub fn replay(ctx: &Ctx, v: &Value) -> bool {
     }
     if v["part"] == "mode-list-shapes" {
         return replay_part(ctx, &super::sweep::mode_part(&SYS_MODES, tier), v);
+    }
+    if v["part"] == "print-realistic-screen-parameter-sweep" {
+        return replay_part(ctx, &super::sweep::wide_part("print-realistic-screen-parameter-sweep", &SYS_SWEEP, &alpha_wide, tier), v);
     }
     if v["part"] == "print-large-screen-parameter-sweep" {
         return replay_part(ctx, &super::sweep::sweep_part("print-large-screen-parameter-sweep", &SYS_SWEEP, &alpha_sweep, tier), v);
